@@ -275,6 +275,26 @@ def f_prov():
                 yield D([[m0, ["alias", "P0", "M0"], ["alias", "P1", "P0"], T("T0", b0), T("T1", b1)]])
 
 
+def f_provrel():
+    """relations declared on methods that are defined through provide() (one or both ends, chains of two proxies)"""
+    a, b = M("A"), M("B")
+    al = [["alias", "PA", "A"], ["alias", "PB", "B"], ["alias", "QA", "PA"]]
+    for r in RELS[1:]:
+        for x, y in (("PA", "PB"), ("PA", "B"), ("A", "PB"), ("QA", "PB"), ("QA", "B")):
+            rel = [[r[0], x, y, r[1]]]
+            yield D([[a, b] + al + [T("T0", [call("PA")]), T("T1", [call("PB")])]], rel)
+            yield D([[a, b] + al + [T("T0", [call("A")]), T("T1", [call("B")])]], rel)
+            yield D([[a, b] + al + [T("T0", [call("QA", en="in")]), T("T1", [If([call("PB")])]), T("T2", [call("A")])]], rel)
+    # Forwarder-style pair whose ordering relation sits on the proxies while the callers conflict
+    xm = M("X")
+    w, rd = M("W"), M("R", rdy="or_run:W")
+    for order in (0, 1):
+        for pw, pr in (("PW", "PR"), ("PW", "R"), ("W", "PR")):
+            ts = [T("T0", [call("PW"), call("X")]), T("T1", [call("PR"), call("X")])]
+            yield D([[xm, w, rd, ["alias", "PW", "W"], ["alias", "PR", "R"]] + (ts if not order else ts[::-1])],
+                    [["before", pw, pr, None]])
+
+
 def f_bad():
     """deliberately ill-formed designs, one defect each (C11), next to their repaired twins"""
     m0, m1 = M("M0"), M("M1")
@@ -351,6 +371,52 @@ def f_fwd():
         ts = [T("T2", [call("R2")] + sx), T("T1", [call("R1"), call("W2")] + sx), T("T0", [call("W1")] + sx)]
         yield D([defs + ts], [["before", "W1", "R1", None], ["before", "W2", "R2", None]])
         yield D([defs + ts[::-1]], [["before", "W1", "R1", None], ["before", "W2", "R2", None]])
+    # the same chain with every subset of the three stages sharing X, every definition order, and 0-2 extra conflict
+    # partners of the first stage (the scheduler's tie-break sorts by number of conflicts): priorities must be respected
+    # transitively through a middle stage that conflicts with nobody
+    base_defs = [x, M("W1"), M("R1", rdy="or_run:W1"), M("W2"), M("R2", rdy="or_run:W2")]
+    rels2 = [["before", "W1", "R1", None], ["before", "W2", "R2", None]]
+    for mask in range(8):
+        body = {"T0": [call("W1")], "T1": [call("R1"), call("W2")], "T2": [call("R2")]}
+        for k, t in enumerate(("T0", "T1", "T2")):
+            if mask >> k & 1:
+                body[t] = body[t] + [call("X")]
+        for perm in itertools.permutations(("T0", "T1", "T2")):
+            for extra in (0, 1, 2):
+                for who in ("T0", "T2"):
+                    if extra == 0 and who == "T2":
+                        continue
+                    ts = [T(t, body[t]) for t in perm] + [T(f"E{i}", []) for i in range(extra)]
+                    yield D([base_defs + ts], rels2 + [["conf", who, f"E{i}", "U"] for i in range(extra)])
+    # writer and reader of one forwarder/pipe defined in different alternatives of one control structure (they can never
+    # conflict directly), a third transaction conflicting with both, 0-3 extra conflict partners of either side
+    for style in ("fwd", "pipe"):
+        if style == "fwd":
+            w, r, rel, first, second = M("W"), M("R", rdy="or_run:W"), ["before", "W", "R", None], "W", "R"
+        else:
+            r, w, rel, first, second = M("R"), M("W", rdy="or_run:R"), ["before", "R", "W", None], "R", "W"
+        mdefs = [x, w, r] if style == "fwd" else [x, r, w]
+        for ctrl in ("ifelse", "elseif", "sw"):
+            for third in ("method", "conf"):
+                for extra in (0, 1, 2, 3):
+                    for who in ("T0", "T1"):
+                        if extra == 0 and who == "T1":
+                            continue
+                        for third_first in (False, True):
+                            sx = [call("X")] if third == "method" else []
+                            t0, t1 = T("T0", [call(first)] + sx), T("T1", [call(second)] + sx)
+                            if ctrl == "ifelse":
+                                st = [If([t0], [t1], has_else=True)]
+                            elif ctrl == "elseif":
+                                st = [If([t1], [t0], has_else=True)]
+                            else:
+                                st = [Sw(1, [(0, [t0]), (1, [t1])])]
+                            t2 = T("T2", sx)
+                            rels = [rel] + [["conf", who, f"E{i}", "U"] for i in range(extra)]
+                            if third == "conf":
+                                rels += [["conf", "T0", "T2", "U"], ["conf", "T1", "T2", "U"]]
+                            es = [T(f"E{i}", []) for i in range(extra)]
+                            yield D([mdefs + ([t2] if third_first else []) + st + ([] if third_first else [t2]) + es], rels)
     # nesting: a nested method whose ready reads a sibling's run, parent conflicts with the callers
     yield D([[x, M("W"), T("T0", [call("W"), call("X")]), T("T1", [call("X"), M("N", rdy="or_run:W")]), T("T2", [call("N")])]],
             [["before", "W", "N", None]])
@@ -391,6 +457,7 @@ def f_xmod(small=True):
 
 FAMILIES = {
     "xmod": f_xmod,
+    "provrel": f_provrel,
     "flat": f_flat, "chain": f_chain, "ctrl": f_ctrl, "rel": f_rel, "nest": f_nest, "val": f_val, "prov": f_prov,
     "bad": f_bad, "fwd": f_fwd,
 }
